@@ -5,7 +5,9 @@
 (*   "beautify":b,"printed":bool,"outcome":"ok"|"<Exception>: ..","evaluated":bool,           *)
 (*   "same":bool (the two bodies are equal; carried as a flag when they are long),            *)
 (*   "body0":[bytes the original encodes to],"body1":[bytes the re-parsed message encodes to]} *)
-(*  {"ev":"Fuzz","toks":[..],"safe":bool,"outcome":..,"evaluated":bool}: mutated texts        *)
+(*  {"ev":"Fuzz","toks":[..],"safe":bool,"outcome":..,"okind":"ok"|"arith"|"exc",               *)
+(*   "evaluated":bool}: mutated texts; okind "arith" = the exception is one only running the   *)
+(*   text can raise (ZeroDivisionError, ...)                                                   *)
 EXTENDS HumanText, Json, IOUtils, TLCExt
 TraceLog == ndJsonDeserialize(IOEnv.TRACE_FILE)
 VARIABLES l, tid
@@ -46,6 +48,9 @@ TFuzz == /\ IsEvent("Fuzz") /\ UNCHANGED <<tid, vars>>
             \* (the real parser may stop earlier on a malformed literal, which the line level does not see)
             /\ Chk("safe.eval-operator-not-accepted", (Rec.safe /\ p.status = "rejected") => Rec.outcome # "ok")
             /\ Chk("safe.rejects-only-eval-operator", (Rec.outcome = RejectMsg) => (Rec.safe /\ p.status = "rejected"))
+            \* a value that is not a literal (nor a special plain form) under "=" / "=|" is never accepted and never run,
+            \* in safe mode and otherwise
+            /\ Chk("literal-only.nonliteral-never-accepted", (p.status = "refused") => (Rec.okind = "exc"))
             \* with safe mode off, evaluation happens only where the machine reaches an eval operator
             /\ Chk("unsafe.evaluates-only-eval-operator", Rec.evaluated => p.evaluated)
 
